@@ -279,6 +279,8 @@ ODD_LINES = [
     'MANIFEST q\\x00 0', 'MANIFEST q\\uD800 0', 'IGNORE q\\uDC80', 'DATA sub/f\\uDFFF 1',
     'TIMESTAMP 2020-01-01T00:00:00Z', 'TIMESTAMP 0999-01-01T00:00:00Z', 'DATA Manifest 0', 'IGNORE Manifest', 'IGNORE .', 'IGNORE ..',
     'DATA sub/Manifest 0', 'IGNORE sub/deep', 'MANIFEST sub/deep/Manifest 0', 'DATA sub/deep/g 1', 'DATA é 2', 'DATA a\\x20b 0',
+    # lines of white space only (skipped like empty ones), and white space around an entry
+    '', ' ', '\t', '\x0c', '  \t ', '\u00a0', ' DATA a 1', 'DATA a 1 \t', 'DATA\ta\t1',
 ]
 
 
@@ -294,7 +296,10 @@ def stream_odd(ctx, drv):
         lines = [rng.choice(ODD_LINES) for _ in range(n)]
         if rng.random() < 0.3:
             lines += gen_text_lines(rng)
-        open(os.path.join(root, 'Manifest'), 'w', encoding='utf8', errors='surrogatepass').write(''.join(l + '\n' for l in lines))
+        text = ''.join(l + '\n' for l in lines)
+        if rng.random() < 0.1:
+            text = text[:-1]                     # no newline at the end of the file
+        open(os.path.join(root, 'Manifest'), 'w', encoding='utf8', errors='surrogatepass').write(text)
         sub_lines = None
         if rng.random() < 0.5:
             sub_lines = [rng.choice(ODD_LINES) for _ in range(rng.choice([0, 1, 2, 3]))]
